@@ -9,6 +9,7 @@ import (
 	"net/http"
 	"reflect"
 	"runtime/debug"
+	"sort"
 	"strings"
 
 	"github.com/PapaCharlie/go-restli/v2/restli"
@@ -410,6 +411,9 @@ func (w *World) batchReply(call *Call, ft reflect.Type, in []reflect.Value) []re
 		for i := 0; i < ka.Len(); i++ {
 			keys = append(keys, ka.Index(i))
 		}
+		// the order in which the server hands the keys to the resource is its own business (it may come out
+		// of a map): draw the entries in an order of our own, or that order leaks into the choice stream
+		sort.SliceStable(keys, func(i, j int) bool { return render(keys[i]) < render(keys[j]) })
 	}
 	results := resp.Elem().FieldByName("Results")
 	errs := resp.Elem().FieldByName("Errors")
